@@ -161,4 +161,45 @@ theorem AttrSafe.of_plain : ∀ (s : Str), (∀ c ∈ s, plainOK c = true) → A
     intro h
     exact AttrSafe.append (a := [c]) (.plain (h c (by simp))) (ih fun d hd => h d (by simp [hd]))
 
+/-! ### integers -/
+
+theorem plainOK_decDigit : ∀ d, d < 10 → plainOK (Char.ofNat (48 + d)) = true := by decide
+
+theorem decDigits_plain : ∀ (f l : Nat) (acc : Str), (∀ c ∈ acc, plainOK c = true) → ∀ c ∈ decDigits f l acc, plainOK c = true := by
+  intro f
+  induction f with
+  | zero => intro l acc h; simpa [decDigits] using h
+  | succ f ih =>
+    intro l acc h
+    simp only [decDigits]
+    split
+    · exact h
+    · apply ih
+      intro c hc
+      rcases List.mem_cons.1 hc with hc | hc
+      · rw [hc]; exact plainOK_decDigit _ (Nat.mod_lt _ (by decide))
+      · exact h c hc
+
+theorem natString_plain (l : Nat) : ∀ c ∈ natString l, plainOK c = true := by
+  unfold natString
+  split
+  · intro c hc; simp at hc; subst hc; decide
+  · exact decDigits_plain l l [] (by simp)
+
+theorem intString_plain (z : Int) : ∀ c ∈ intString z, plainOK c = true := by
+  cases z with
+  | ofNat n => exact natString_plain n
+  | negSucc n =>
+    intro c hc
+    simp only [intString, List.mem_cons] at hc
+    rcases hc with hc | hc
+    · subst hc; decide
+    · exact natString_plain _ c hc
+
+/-- every character of the string may stand for itself in an attribute value -/
+def allPlain (s : Str) : Bool := s.all plainOK
+
+theorem AttrSafe.of_allPlain (s : Str) (h : allPlain s = true) : AttrSafe s :=
+  AttrSafe.of_plain s (by simpa [allPlain] using h)
+
 end Cppcheck.DumpXml
